@@ -212,8 +212,22 @@ def check_function(ctx, rep, f, seeds):
 
 
 def check_caller(ctx, rep, f):
-    """`Transportation1d pb(u, v, s, d); assignment = pb.assign(); for i < cells.size(): binCells[assignment[i]]...`:
-    u/s/cells are pushed together (one source per cell), v/d once per bin of the line, and binCells has one slot per bin."""
+    """`Transportation1d pb(u, v, s, d); A = pb.assign(); for i < cells.size(): perBin[A[i]]...`:
+    u, s and the list of collected cells are pushed together (one source per cell), v and d together (one sink per bin),
+    and the assignment is read for exactly the collected cells. All variables are identified by their role, not by name."""
+    g = cfg_of(f)
+    pbs = [x for x in walk(f.body) if x.get("kind") == "VarDecl" and "Transportation1d" in qt(x) and children(x)]
+    pbv = {("var", x.get("id"), x.get("name")) for x in pbs}
+    asg = [x for x in walk(f.body) if x.get("kind") == "VarDecl" and children(x) and canon(children(x)[-1])[0] == "call"
+           and canon(children(x)[-1])[1].split("::")[-1] == "assign" and canon(children(x)[-1])[2] in pbv]
+    if len(pbs) != 1 or len(asg) != 1:
+        rep.unknown("QC", f.decl, f, "1-D transport call", "problem construction / assign() call not found exactly once")
+        return
+    ic = canon(children(pbs[0])[-1])
+    if ic[0] != "construct" or len(ic) < 6 or any(a[0] != "var" for a in ic[2:6]):
+        rep.unknown("QC", pbs[0], f, "1-D transport call", "constructor arguments are not four local vectors")
+        return
+    u, v, s_, d = ic[2:6]
     pushes = {}
     for x in walk(f.body):
         if x.get("kind") == "CXXMemberCallExpr":
@@ -221,38 +235,44 @@ def check_caller(ctx, rep, f):
             if ci["name"] == "push_back" and ci["obj"] is not None:
                 oc = canon(ci["obj"])
                 if oc[0] == "var":
-                    pushes.setdefault(oc[2], []).append(x)
-    g = cfg_of(f)
+                    pushes.setdefault(oc[1], []).append(x)
 
-    def together(a, b):
-        if a not in pushes or b not in pushes or len(pushes[a]) != 1 or len(pushes[b]) != 1:
-            return False
-        na, nb = g.node_for(pushes[a][0]), g.node_for(pushes[b][0])
-        ea = {(id(x), v) for x, v, _e in g.dom_edges(na)}
-        eb = {(id(x), v) for x, v, _e in g.dom_edges(nb)}
-        return ea == eb
-    ok_src = together("cells", "u") and together("cells", "s")
-    ok_snk = together("v", "d")
-    # the per-bin vector indexed by assignment[i]
+    def block(var):
+        lst = pushes.get(var[1], [])
+        if len(lst) != 1:
+            return None
+        n = g.node_for(lst[0])
+        return frozenset((id(a), val) for a, val, _e in g.dom_edges(n))
+    bu, bs, bv, bd = block(u), block(s_), block(v), block(d)
+    # the vector of collected cells: the other int vector pushed in the same block as u
+    cellvars = [vid for vid, lst in pushes.items() if vid not in (u[1], s_[1], v[1], d[1]) and len(lst) == 1 and
+                frozenset((id(a), val) for a, val, _e in g.dom_edges(g.node_for(lst[0]))) == bu]
+    av = ("var", asg[0].get("id"), asg[0].get("name"))
+    problems = []
+    if None in (bu, bs, bv, bd):
+        rep.unknown("QC", f.decl, f, "problem construction", "u/v/s/d are not each filled by exactly one push")
+        return
+    if bu != bs:
+        problems.append("source positions and supplies are not pushed together")
+    if bv != bd:
+        problems.append("sink positions and demands are not pushed together")
+    if len(cellvars) != 1:
+        problems.append("no list of collected cells is filled together with the sources (index alignment lost)")
     idx_ok = False
     for x in walk(f.body):
         if x.get("kind") == "CXXOperatorCallExpr" and callee_info(x)["name"] == "operator[]":
             c = canon(x)
-            if c[0] == "index" and c[2][0] == "index" and c[2][1][0] == "var" and c[2][1][2] == "assignment":
+            if c[0] == "index" and c[2][0] == "index" and c[2][1] == av:
                 i = c[2][2]
-                d = f.unit.by_id.get(i[1]) if i[0] == "var" else None
-                pp = d.get("_p", {}).get("_p") if d else None
+                dd = f.unit.by_id.get(i[1]) if i[0] == "var" else None
+                pp = dd.get("_p", {}).get("_p") if dd else None
                 li = for_loop_info(pp) if pp is not None and pp.get("kind") == "ForStmt" else None
-                if li and li["hi"] == ("call", "size", ("var", li["hi"][2][1], "cells")) if li and li["hi"] and li["hi"][0] == "call" and li["hi"][1] == "size" else False:
+                if li and li["lo"] == ("lit", "0") and li["hi"] and li["hi"][0] == "call" and li["hi"][1] == "size" and cellvars and \
+                        li["hi"][2][0] == "var" and li["hi"][2][1] == cellvars[0]:
                     idx_ok = True
-    if ok_src and ok_snk and idx_ok:
-        rep.holds("QC", f.decl, f, "one source per collected cell, one sink per bin; assignment read for exactly those cells")
+    if not idx_ok:
+        problems.append("the assignment is not read over exactly the collected cells (i in 0..cells.size())")
+    if problems:
+        rep.violation("QC", f.decl, f, "problem/assignment index alignment broken", "; ".join(problems), key="%s|assignment alignment" % f.short)
     else:
-        why = []
-        if not ok_src:
-            why.append("cells/u/s are not pushed together (sources and cells would not be index-aligned)")
-        if not ok_snk:
-            why.append("v/d are not pushed together")
-        if not idx_ok:
-            why.append("assignment[i] is not read over i < cells.size()")
-        rep.violation("QC", f.decl, f, "problem/assignment index alignment broken", "; ".join(why), key="%s|assignment alignment" % f.short)
+        rep.holds("QC", f.decl, f, "one source per collected cell, one sink per bin; assignment read for exactly those cells")
